@@ -200,8 +200,13 @@ def install(silence=True, sync_threads=True):
     shim = type("urlshim", (), {"urlopen": staticmethod(urlopen),
                                 "__getattr__": lambda self, n: getattr(_real_urllib, n)})()
     terminology.urllib2 = shim
+    import odml.templates as templates
+    _real_urllib_t = templates.urllib2
+    templates.urllib2 = type("urlshim", (), {"urlopen": staticmethod(urlopen),
+                                             "__getattr__": lambda self, n: getattr(_real_urllib_t, n)})()
     if sync_threads:
         terminology.threading = _ThreadingShim()
+        templates.threading = _ThreadingShim()
     if silence:
         sys.stdout = NULL
         sys.stderr = NULL
